@@ -3,6 +3,7 @@ package main
 import (
 	"encoding/json"
 	"fmt"
+	stdhtml "html"
 	"regexp"
 	"strings"
 	"sync/atomic"
@@ -174,7 +175,11 @@ func c14Confine(cell int, text, decoded, data string, exec func(string) (string,
 			fs = append(fs, c14Finding{"trurl-not-fully-encoded", "", fmt.Sprintf("program %s with data %s: after a TrustedResourceURL prefix the data must be fully percent-encoded (%q), got %q", core.Q(text), core.Q(data), enc, rest)})
 		}
 		if ok, why := c13ContainedStatic(decoded, decoded, v); !ok {
-			fs = append(fs, c14Finding{"trurl-dotdot", "", fmt.Sprintf("program %s with data %s: value %q: %s", core.Q(text), core.Q(data), v, why)})
+			dd := ""
+			if c13HasDotDot(data) {
+				dd = "data-alone" // the data itself spells "..": not the known combination of a static '.' with a '.' of the data
+			}
+			fs = append(fs, c14Finding{"trurl-dotdot", dd, fmt.Sprintf("program %s with data %s: value %q: %s", core.Q(text), core.Q(data), v, why)})
 		}
 	default:
 		for i := 0; i < len(rest); i++ {
@@ -232,7 +237,9 @@ func checkC14(r *core.Run) {
 	}
 	// realistic longer prefixes
 	realistic := []string{"https://o/a/", "https://o/a/.", "https://o/a/%2e", "/p/", "/p/.", "//o/p/", "/p?q=", "/p?q=a&r=", "/p#f", "https://o/p?q=", "about:blank#", "/a/b/..", "/p/&amp;", "/p?a&amp;b=", "https://o/.&#37;2", "/p/&#x25;2", "/p/%2", "/p/%", "https://o/a/&#46;",
-		"&#x;/", "/&#x;", "&#;/", "&#2#", "&#9/", "/a&#9", "java&#9script:", "&#x9/", "/&#1"}
+		"&#x;/", "/&#x;", "&#;/", "&#2#", "&#9/", "/a&#9", "java&#9script:", "&#x9/", "/&#1",
+		// path prefixes spelled with character references (the raw text contains '#', ';', '&' although the URL has no query or fragment)
+		"/static&#47;", "/a&#x2f;b/", "https://o/&#x6a;s/", "/a&#47;", "/a/&#x2e;", "/p&#47;q&#63;r="}
 	nReal := len(realistic)
 	prefixes = append(prefixes, realistic...)
 	var data []string
@@ -357,6 +364,50 @@ func checkC14(r *core.Run) {
 			}
 		}
 	})
+	// loop bodies that move the URL into its query or fragment: the second iteration's data must be confined by the
+	// prefix then in effect (an engine may also refuse such a template)
+	var loopProgs int64
+	for _, cell := range []int{1, 0, 2, 5} {
+		cl := c14Cells[cell]
+		for _, pre := range []string{"/p/", "/p?a=", "/p", "https://o/p/"} {
+			for _, sep := range []string{"?", "#", "/", "&", "?x=", "&amp;", "&#63;", ""} {
+				for _, body := range []string{"{{.}}" + sep, sep + "{{.}}"} {
+					text := cl.open + cl.attr + "=\"" + pre + "{{range $.L}}" + body + "{{end}}\"" + cl.close
+					loopProgs++
+					p, _ := tmplx.Prepare(text)
+					if p == nil {
+						continue
+					}
+					dsep := stdhtml.UnescapeString(sep)
+					for _, d := range cdata {
+						dd := tmplx.Data{L: []interface{}{"a", d}}
+						res := p.Exec(&dd)
+						atomic.AddInt64(&execs, 1)
+						if res.Kind != tmplx.OK {
+							continue
+						}
+						v, ok := c14AttrValue(res.Out, cl.attr)
+						sofar := pre + "a" + dsep
+						if body != "{{.}}"+sep {
+							sofar = pre + dsep + "a" + dsep
+						}
+						if !ok || !strings.HasPrefix(v, sofar) {
+							continue // the first iteration is judged by the single-action cells
+						}
+						rest := v[len(sofar):]
+						if body == "{{.}}"+sep {
+							rest = strings.TrimSuffix(rest, dsep)
+						}
+						if strings.ContainsAny(sofar, "?#") && rfc3986.LowerEscapes(rest) != rfc3986.Encode(d) {
+							r.Witness("query-not-fully-encoded", "loop-body-changes-url-part "+cl.name, text+"\x00"+d,
+								fmt.Sprintf("program %s with L=[a %s]: value %q: the second iteration's data follows %q and must be fully percent-encoded (%q), got %q", core.Q(text), core.Q(d), v, sofar, rfc3986.Encode(d), rest), nil)
+						}
+					}
+				}
+			}
+		}
+	}
+	r.Set("loop_prefix_programs", loopProgs)
 	r.Set("conditional_prefix_programs", condProgs)
 	if r.Expired() {
 		r.NotExhaustive("internal deadline reached")
